@@ -268,7 +268,13 @@ func (g *gen) section(which string, collide bool) map[string]any {
 	if len(props) > 0 {
 		m["properties"] = props
 		if g.p(0.6) {
-			m["required"] = strs(g.subset(sortedKeys(props), 3))
+			req := g.subset(sortedKeys(props), 3)
+			// a required list may name what the author declares no property for: a machinery field
+			// Crossplane adds itself, or a field left to preserve-unknown-fields
+			if which == "spec" && g.p(0.25) {
+				req = append(req, g.pick([]string{"compositionRef", "writeConnectionSecretToRef", "compositionSelector", "compositionUpdatePolicy", "notDeclaredAnywhere"}))
+			}
+			m["required"] = strs(req)
 		}
 		if g.p(0.15) {
 			ks := sortedKeys(props)
